@@ -215,6 +215,13 @@ pub fn messages() -> Vec<Msg> {
         m.target = s("*");
         v.push(m);
     }
+    // counts: 255 / 256 / 257 / 1000 header fields in one block
+    for n in [255usize, 256, 257, 1000] {
+        let names: Vec<String> = (0..n).map(|i| format!("x-n{i}")).collect();
+        let hs: Vec<(&str, &str)> = names.iter().map(|x| (x.as_str(), "v")).collect();
+        v.push(base_request(hs.clone()));
+        v.push(base_response(200, hs));
+    }
     // language tags whose primary subtag is not two letters (and the underscore spelling): only whole primary subtags count
     for al in ["fil-PH,fil;q=0.9,en;q=0.8", "haw", "en_US,fr;q=0.1", "eng,deu;q=0.9,ja;q=0.2", "e,es-419;q=0.3"] {
         v.push(base_request(vec![("user-agent", "x"), ("accept-language", al)]));
@@ -391,6 +398,16 @@ pub fn cases(thorough: bool) -> Vec<(Case, &'static str)> {
                 // undefined flag bits on the CONTINUATION frame (the ones that mean PADDED / PRIORITY / END_STREAM on HEADERS)
                 for cf in [0x08u8, 0x20, 0x29, 0xfb] {
                     v.push((Case { framing: Framing { splits: vec![a], cont_flags: cf, ..Default::default() }, ..base.clone() }, "continuation"));
+                }
+                // empty fragments: nothing of the block in the HEADERS frame (with and without padding / priority fields), an
+                // empty last CONTINUATION frame
+                if a == 1 {
+                    for pad in [None, Some(0u8), Some(1), Some(3), Some(255)] {
+                        v.push((Case { framing: Framing { splits: vec![0], pad, ..Default::default() }, ..base.clone() }, "continuation"));
+                        v.push((Case { framing: Framing { splits: vec![0, 5], pad, prio: Some((true, 1, 3)), ..Default::default() }, ..base.clone() }, "continuation"));
+                    }
+                    v.push((Case { framing: Framing { splits: vec![usize::MAX], ..Default::default() }, ..base.clone() }, "continuation"));
+                    v.push((Case { framing: Framing { splits: vec![0, usize::MAX], pad: Some(2), ..Default::default() }, ..base.clone() }, "continuation"));
                 }
                 // undefined bits on the HEADERS frame itself, alone and next to PADDED / PRIORITY
                 for hf in [0x02u8, 0x10, 0x40, 0x80, 0xd2] {
